@@ -10,7 +10,18 @@ PROP = {
              "union at least once, present/absent Maybe, left/right Either, inline/ref EitherRef, nested refs, all four MsgAddress "
              "forms with anycast depth 1..30 and address lengths 0,1,8,256,511, dictionaries of 0..3 entries; (3) 30 (600 thorough) "
              "more values for Message, CommonMsgInfo, StateInit, CurrencyCollection, Account, TransactionDescr, Transaction, "
-             "MsgEnvelope, InMsg, OutMsg, VmStackValue; (4) VM stacks of depth 0,1,2..5,12..41; (5) every message and transaction "
+             "MsgEnvelope, InMsg, OutMsg, VmStackValue; (4) VM stacks of depth 0,1,2..5,12..41 whose entries are nulls, tiny ints and "
+             "257-bit ints at their boundaries, cells, builders and cell slices (windows st_bits..end_bits / st_ref..end_ref over cells "
+             "with 0, 1..8, up to 1023 data bits and 0..4 references: full, empty at either end, empty inside, partial); (4b) the "
+             "cursor family: for every type holding a bit string or a cell (MsgAddress extern/var, Any, ^Cell, cell slices; 120 "
+             "values for MsgAddress, 60 for Message/CommonMsgInfo) the read cursors inside the Go value are advanced by "
+             "1/3/8/9/64/511 bits (cells: and one reference) before tlb.Marshal: the cell must equal the one of the fresh value and "
+             "the model's; (4c) exploration support for the types OUTSIDE the model (opaque, decode-only, partial: ~130 types, 12 "
+             "values each, 150 thorough): Go values built by reflection (described sub-trees through their descriptor, hand-written "
+             "leaves SnakeData/Bytes/Text/FixedLengthText/SignedCoins/Anycast/dictionaries through small generators incl. empty, "
+             "zero-length and > 1023-bit fills, one constructor per union, conditional block.tlb fields kept consistent with their "
+             "flag) and the oracle Unmarshal(Marshal(v)) == v with equal re-encoding whenever Marshal succeeds - implementation "
+             "only, counted under explore|package|class|outcome, failures keyed opaque-roundtrip-<Type>; (5) every message and transaction "
              "of the five testdata blocks: decoded, re-encoded, hash compared with the source cell (transactions: modulo the out_msgs "
              "dictionary cell, whose label form is not unique), and the small ones run through the model. Per case tlb.Marshal -> cell "
              "(compared bit for bit and reference by reference with the model's cell), tlb.Unmarshal of that cell -> value (compared), "
@@ -26,11 +37,14 @@ PROP = {
                     "results bottom-first). coq/Properties/C03_gen.v re-checks wf_ty (pairwise prefix-free constructor tags, tag values "
                     "fit, rest-of-cell codecs last, widths) by vm_compute on the descriptors regenerated from today's struct definitions, "
                     "that every exported type of the three packages is either claimed or listed with the reason, and prints the lists."),
-    'assumptions': ["types listed in Generated/TlbTypes.v as tlb_opaque (82: inline Hashmap / HashmapAug(E) / BinTree fields, SnakeData/Text/Bytes/FixedLengthText, SignedCoins, VmCellSlice, wallet PayloadV1toV4/PayloadHighload/W5Actions/W5ExtendedActions/TextComment and the wallet message bodies built on them, abi JettonPayload/NFTPayload/InMsgBody and the bodies containing them, config params built on inline Hashmap) and tlb_decode_only (35: hand-written decoder over the reflection encoder) are NOT covered; tlb_partial (15) lists claimed types in which some union constructor has no model (it is the empty union in the descriptor)",
+    'assumptions': ["types listed in Generated/TlbTypes.v as tlb_opaque (81: inline Hashmap / HashmapAug(E) / BinTree fields, SnakeData/Text/Bytes/FixedLengthText, SignedCoins, wallet PayloadV1toV4/PayloadHighload/W5Actions/W5ExtendedActions/TextComment and the wallet message bodies built on them, abi JettonPayload/NFTPayload/InMsgBody and the bodies containing them, config params built on inline Hashmap) and tlb_decode_only (35: hand-written decoder over the reflection encoder) are NOT covered; tlb_partial (15) lists claimed types in which some union constructor has no model (it is the empty union in the descriptor)",
                     "HashmapE fields are modelled as Maybe ^Cell with an uninterpreted dictionary cell (the dictionary codec is property C05); the harness builds the Go dictionary from that cell with the library's own decoder",
                     "tlb.BlkPrevInfo (two `$_` constructors, chosen by the enclosing BlockInfo) is a context-dependent union and is not claimed stand-alone",
                     "library-cell and pruned-branch short-cuts of the decoder, Decoder.WithDebug, and aliasing between decoded values and source cells are not modelled; reflect itself is modelled (field order, tags, kinds), not verified",
                     "domain of a value = what the TL-B type can express: AccountStatus/AccStatusChange/ComputeSkipReason strings outside the named constants are written as zero bits without error, a VarUInteger n holding more than n-1 bytes gets a truncated length field without error, AddrVar.AddrLen must equal the address length; these inputs are outside the quantifier",
+                    "tlb.VmCellSlice is modelled as the struct ^Cell, uint10, uint10, uint3, uint3; its domain (st <= end <= size of the cell) is enforced by the generator, the encoder's and decoder's range checks are not in the model",
+                    "tlb.Any is encoded from all its bits but only the references not yet read (NextRef): the cursor family leaves the reference cursor of Any alone",
+                    "known clean-tree behaviour counted, not alarmed: a non-nil empty wallet.W5ExtendedActions list (also inside MessageV5/MessageV5Beta) encodes to nothing and does not decode",
                     "the fuel of the model's walkers bounds the nesting depth of the descriptor only; wf_ty certifies it suffices (no bound on values)"],
 }
 
